@@ -84,6 +84,7 @@ type PathState struct {
 	notes    []string
 	nDecide  int
 	usedStub bool
+	initMode bool
 }
 
 func (ps *PathState) note(s string) {
@@ -137,6 +138,9 @@ func (ps *PathState) decide(c *Term, why string) bool {
 	if c.isConst() {
 		return c.k == 1
 	}
+	if ps.initMode {
+		panic(unsupported{"symbolic branch in package init"})
+	}
 	ps.nDecide++
 	if ps.pos < len(ps.prefix) {
 		d := ps.prefix[ps.pos]
@@ -158,6 +162,7 @@ func (ps *PathState) decide(c *Term, why string) bool {
 	ps.solver.Push()
 	ps.solver.Assert(other)
 	r := ps.solver.Check()
+	ps.h.whyStat(why, r == "sat")
 	if r == "sat" {
 		m := ps.solver.GetModel(ps.vars)
 		np := make([]decision, len(ps.trace)+1)
@@ -181,6 +186,9 @@ func (ps *PathState) decide(c *Term, why string) bool {
 func (ps *PathState) concretize(t *Term, why string) uint64 {
 	if t.isConst() {
 		return t.k
+	}
+	if ps.initMode {
+		panic(unsupported{"symbolic value in package init"})
 	}
 	tried := 0
 	for {
@@ -213,6 +221,7 @@ func (ps *PathState) concretize(t *Term, why string) uint64 {
 		ps.solver.Push()
 		ps.solver.Assert(mkNot(eq))
 		r := ps.solver.Check()
+		ps.h.whyStat("split:"+why, r == "sat")
 		if r == "sat" {
 			m := ps.solver.GetModel(ps.vars)
 			np := make([]decision, len(ps.trace)+1)
@@ -304,11 +313,26 @@ type HarnessRun struct {
 	needsEngine bool
 	stubsUsed  map[string]bool
 	wall       time.Duration
+	why        map[string][2]int
 }
 
 func (h *HarnessRun) countBranch() {
 	h.mu.Lock()
 	h.branches++
+	h.mu.Unlock()
+}
+
+func (h *HarnessRun) whyStat(why string, sat bool) {
+	h.mu.Lock()
+	if h.why == nil {
+		h.why = map[string][2]int{}
+	}
+	v := h.why[why]
+	v[0]++
+	if sat {
+		v[1]++
+	}
+	h.why[why] = v
 	h.mu.Unlock()
 }
 
